@@ -356,3 +356,20 @@ func NaiveEventsDigest(blocks []*Blk) string {
 	s := sha256.Sum256([]byte(strings.Join(all, "\n")))
 	return fmt.Sprintf("%d events/%s", len(all), hex.EncodeToString(s[:8]))
 }
+
+// NaiveEventsDigestFrom is NaiveEventsDigest restricted to events emitted by `from`.
+func NaiveEventsDigestFrom(blocks []*Blk, from *felt.Felt) string {
+	var all []string
+	for _, b := range blocks {
+		for ti, rc := range b.Block.Receipts {
+			for ei, ev := range rc.Events {
+				if !ev.From.Equal(from) {
+					continue
+				}
+				all = append(all, fmt.Sprintf("%d/%s/%s/%d/%d/%s", b.Block.Number, b.Block.Hash.String(), rc.TransactionHash.String(), ti, ei, digest(ev)))
+			}
+		}
+	}
+	s := sha256.Sum256([]byte(strings.Join(all, "\n")))
+	return fmt.Sprintf("%d events/%s", len(all), hex.EncodeToString(s[:8]))
+}
